@@ -2128,6 +2128,13 @@ impl<'a, E: quiver_core::effects::Effect> Compiler<'a, E> {
                 if let Some(d) = &mut dispatch {
                     d.valid = false;
                 }
+                // The condition's code still runs up to the step that is known to fail, so
+                // whatever it bound before that is dropped here: the next branch numbers its
+                // own locals from the parameter again.
+                if self.local_count > param_local + 1 {
+                    self.codegen
+                        .add_instruction(Instruction::Reset(param_local + 1));
+                }
                 continue;
             }
 
